@@ -1898,6 +1898,12 @@ class ContractionTree:
                 i = -1
             rng = None
 
+        if subtree_search == "random":
+            # a random subtree search needs the (same) seeded generator too
+            search_rng = get_rng(seed) if rng is None else rng
+        else:
+            search_rng = None
+
         candidates, weights = tree.calc_subtree_candidates(
             pwr=weight_pwr, what=weight_what
         )
@@ -1919,7 +1925,10 @@ class ContractionTree:
 
                 # get a subtree to possibly reconfigure
                 sub_leaves, sub_branches = tree.get_subtree(
-                    sub_root, size=subtree_size, search=subtree_search
+                    sub_root,
+                    size=subtree_size,
+                    search=subtree_search,
+                    seed=search_rng,
                 )
 
                 sub_leaves = frozenset(sub_leaves)
